@@ -8,7 +8,7 @@ import Cel.Model.Funcs
     <program> := <I|C> <N|L|D> <nf> <fnspec>…nf <expr>
     <fnspec>  := <key> <pyname|-> <kind> <beh>
        key     dict key (ignored for list style, where the key is the pyname)
-       kind    ev | mod | main | nested | lambda | obj | bound | partial | wraps
+       kind    ev | mod | main | nested | lambda | obj | bound | partial | wraps | wrapsev | eqobj | qualfn
        beh     const <val> | sum <k> | pos | errv | raise <Exc> | errneg <k> | raiseneg <k> | lst | size | contains
     <val>     := i<int> | bT | bF | L <n> <val>…n
     <expr>    := <val-literal as `lit <val>`> | v<i> | call <f> <n> e…n | meth <f> <n> recv e…n
@@ -96,7 +96,7 @@ def parseBeh : List String → Option (HostFn × List String)
 def kindOfName? : String → Option CKind
   | "ev" => some .evalVisible | "mod" => some .moduleDef | "main" => some .mainDef | "nested" => some .nestedDef
   | "lambda" => some .lambda | "obj" => some .callableObj | "bound" => some .boundMethod | "partial" => some .partialObj
-  | "wraps" => some .wrapsBuiltin
+  | "wraps" => some .wrapsBuiltin | "wrapsev" => some .wrapsVisible | "eqobj" => some .equalToAll | "qualfn" => some .renamedDef
   | _ => none
 
 def parseFnSpecs : Nat → List String → Option (List (String × Callable) × List String)
